@@ -11,7 +11,7 @@ CLAIM = {
             "indexed by shape.offset(Position::new(row, col)) with row drawn from a range ending at most at shape.height and col from a range ending at most "
             "at shape.width (containment, with C07's Shape lemma); "
             "(b) the three io::Write adapters feed the written buffer through one Cursor to a stateful decoder kept in `self`, forward every decoded "
-            "item, and return cursor.position() (or buf.len() only where the sink reported it is full; 0 / buf.len() on an edge taken only when buf is empty is the same value) — with C03's fold theorem the produced cells "
+            "item, and return cursor.position() (or buf.len() only where the sink reported it is full; 0 / buf.len() on an edge taken only when buf is empty is the same value; a write() whose decode / put_char steps live in the closures of a lazy iterator chain - from_fn, map, find / find_map / try_for_each / all / any, transpose, map_or_else ... - is decided on the same clauses by abstract execution over Ok/Err/Some/None shapes, anything not modelled stays a report) — with C03's fold theorem the produced cells "
             "do not depend on how bytes are split across writes; (c) measuring (Text/str layout) and writing (put_cell) call the same Cell::layout "
             "routine with wraps and width taken from corresponding sources; (c') WRAPS-AGREE: every put_cell reached from Text::render / str::render "
             "(followed through closures and helper bodies such as put_text/put_char) goes to a writer whose wraps flag - the constant of TerminalWriter::new, "
@@ -469,6 +469,365 @@ def _thru_getters(prog, e):
 SURF_MUTATORS = r"^surface::SurfaceMut::(get_mut|data_mut|iter_mut|fill|fill_with|clear|insert|set|view_mut|as_mut)$|<.* as surface::SurfaceMut>::(get_mut|data_mut|iter_mut|fill|fill_with|clear|insert|set|view_mut|as_mut)$"
 
 
+# ---- lazy iterator chains (WRITER-FOLD written as from_fn/map/find/... instead of a loop) ---------------------------------------
+# A tiny abstract interpreter over MIR: sum-type values are enumerated by shape (Ok/Err/Some/None/Continue/Break with symbolic payloads), closures
+# are executed where a combinator applies them, a lazy consumer (find / find_map / try_for_each / all / any) is summarised by its last
+# iteration (earlier iterations are the ones on which the consumer went on).  Everything not modelled raises _Undecided and the rule keeps
+# its fail-closed verdict.
+_DISCR = {"None": 0, "Some": 1, "Ok": 0, "Err": 1, "Continue": 0, "Break": 1}
+_END = ("end", None, [])
+_UNIT = ("tuple", None, [])
+
+
+class _Undecided(Exception):
+    pass
+
+
+def _v(name, *fields):
+    return ("v", name, list(fields))
+
+
+def _has_lazy(v, depth=0):
+    if not isinstance(v, tuple) or depth > 8:
+        return False
+    if v[0] in ("closure", "from_fn", "map"):
+        return True
+    return len(v) == 3 and isinstance(v[2], list) and any(_has_lazy(x, depth + 1) for x in v[2])
+
+
+class _Chain:
+    def __init__(self, prog, dec_rx):
+        self.prog, self.dec_rx = prog, dec_rx
+        self.steps = 0
+        self.dec_args, self.buf_readers, self.unforwarded = [], [], []
+
+    # -- values ------------------------------------------------------------------------------------
+    def place(self, env, p):
+        v = env.get(p["l"], ("undef", p["l"], []))
+        for e in p["p"]:
+            k = e["k"]
+            if k == "deref":
+                continue                      # references are transparent: values are symbolic and immutable
+            if k == "downcast":
+                if v[0] != "v" or v[1] != e["variant"]:
+                    raise _Undecided("downcast of %r" % (v[:2],))
+                continue
+            if k == "field":
+                if v[0] in ("v", "tuple", "closure"):
+                    if e["i"] >= len(v[2]):
+                        raise _Undecided("field")
+                    v = v[2][e["i"]]
+                elif v[0] in ("arg", "fld"):
+                    v = ("fld", e["name"], [v])
+                else:
+                    raise _Undecided("field of %r" % (v[:2],))
+                continue
+            raise _Undecided("projection " + k)
+        return v
+
+    def operand(self, env, o):
+        if o["k"] in ("copy", "move"):
+            return self.place(env, o["place"])
+        c = o.get("c", {})
+        if "int" in c:
+            return ("int", int(c["int"]), [])
+        return ("const", c.get("text", "?"), [])
+
+    @staticmethod
+    def truth(v):
+        if v[0] == "bool":
+            return v[1]
+        if v[0] == "int" and v[1] in (0, 1):
+            return bool(v[1])
+        return None
+
+    def rvalue(self, env, rv):
+        k = rv["k"]
+        if k == "use":
+            return self.operand(env, rv["a"])
+        if k == "ref":
+            return self.place(env, rv["place"])
+        if k == "discr":
+            v = self.place(env, rv["place"])
+            if v[0] != "v" or v[1] not in _DISCR:
+                raise _Undecided("discriminant of %r" % (v[:2],))
+            return ("int", _DISCR[v[1]], [])
+        if k == "agg":
+            fs = [self.operand(env, f) for f in rv["fields"]]
+            if rv["ak"] == "adt":
+                return ("v", rv["variant"], fs)
+            if rv["ak"] == "closure":
+                return ("closure", rv["def"], fs)
+            if rv["ak"] == "tuple":
+                return ("tuple", None, fs)
+            raise _Undecided("aggregate " + rv["ak"])
+        if k == "un" and rv["op"] == "Not":
+            v = self.operand(env, rv["a"])
+            b = self.truth(v)
+            if b is None:
+                return ("not", None, [v])
+            return ("bool", not b, v[2] if v[0] == "bool" else [])
+        if k == "cast":
+            return ("cast", rv["ty"], [self.operand(env, rv["a"])])
+        if k == "bin":
+            return ("bin", rv["op"], [self.operand(env, rv["a"]), self.operand(env, rv["b"])])
+        raise _Undecided("rvalue " + k)
+
+    # -- execution ---------------------------------------------------------------------------------
+    def run_body(self, body, args, trace):
+        """every (return value, trace) outcome of the body on these abstract arguments"""
+        out = []
+        work = [(0, {i + 1: a for i, a in enumerate(args)}, trace, 0)]
+        while work:
+            bb, env, tr, n = work.pop()
+            self.steps += 1
+            if self.steps > 5000 or n > 300:
+                raise _Undecided("path budget")
+            blk = body.blocks[bb]
+            env = dict(env)
+            for s in blk["stmts"]:
+                if s["k"] != "assign":
+                    continue
+                if s["place"]["p"]:
+                    raise _Undecided("store through a projection")
+                env[s["place"]["l"]] = self.rvalue(env, s["rv"])
+            t = blk["term"]
+            k = t["k"]
+            if k in ("goto", "drop", "assert"):
+                work.append((t["t"], env, tr, n + 1))
+            elif k == "return":
+                out.append((env.get(0, _UNIT), tr))
+            elif k == "unreachable":
+                continue
+            elif k == "switch":
+                d = self.operand(env, t["d"])
+                if d[0] == "int":
+                    val = str(d[1])
+                elif d[0] == "bool":
+                    val = "1" if d[1] else "0"
+                else:
+                    # a condition that is not known: both ways are followed, the trace remembers which (more paths = more returns to justify)
+                    for val_, tg in list(zip(t["vals"], t["targets"])) + [("other", t["otherwise"])]:
+                        work.append((tg, env, tr + (("cond", d, val_, tuple(t["vals"])),), n + 1))
+                    continue
+                work.append((t["targets"][t["vals"].index(val)] if val in t["vals"] else t["otherwise"], env, tr, n + 1))
+            elif k == "call":
+                if t["dest"]["p"] or t.get("t") is None or t["t"] < 0:
+                    raise _Undecided("call destination")
+                for val, tr2 in self.call(env, t, tr):
+                    env2 = dict(env)
+                    env2[t["dest"]["l"]] = val
+                    work.append((t["t"], env2, tr2, n + 1))
+            else:
+                raise _Undecided("terminator " + k)
+        return out
+
+    def callfn(self, f, args, tr):
+        if f[0] != "closure":
+            raise _Undecided("callee %r" % (f[:2],))
+        cb = self.prog.body(f[1])
+        if cb is None or cb.arg_count != len(args) + 1:
+            raise _Undecided("closure body")
+        return self.run_body(cb, [f] + list(args), tr)
+
+    def next(self, s, tr):
+        if s[0] == "from_fn":
+            out = []
+            for v, tr2 in self.callfn(s[2][0], [], tr):
+                if v[0] != "v" or v[1] not in ("Some", "None"):
+                    raise _Undecided("from_fn item")
+                out.append((v[2][0] if v[1] == "Some" else _END, tr2))
+            return out
+        if s[0] == "map":
+            out = []
+            for x, tr2 in self.next(s[2][0], tr):
+                if x is _END:
+                    out.append((x, tr2))
+                else:
+                    out.extend(self.callfn(s[2][1], [x], tr2))
+            return out
+        raise _Undecided("iterator %r" % (s[:2],))
+
+    def forwarded(self, before, after):
+        """a decoded item that met no sink call during the iteration that produced it is recorded"""
+        new = after[len(before):]
+        if any(e[0] == "decode" and e[1] == "Some" for e in new) and not any(e[0] == "put_char" and e[2] == ("decoded", None, []) for e in new):
+            self.unforwarded.append(new)
+
+    def consume(self, kind, s, f, tr):
+        out = []
+        for x, tr2 in self.next(s, tr):
+            if x is _END:
+                if kind in ("find", "find_map"):
+                    out.append((_v("None"), tr2))
+                elif kind in ("all", "any"):
+                    out.append((("bool", kind == "all", []), tr2))
+                else:
+                    out.append((("try_done", None, []), tr2))
+                continue
+            for r, tr3 in self.callfn(f, [x], tr2):
+                self.forwarded(tr, tr3)
+                if kind in ("find", "all", "any"):
+                    b = self.truth(r)
+                    if b is None:
+                        raise _Undecided("predicate value")
+                    if kind == "find" and b:
+                        out.append((_v("Some", x), tr3))
+                    elif kind == "all" and not b:
+                        out.append((("bool", False, r[2] if r[0] == "bool" else []), tr3))
+                    elif kind == "any" and b:
+                        out.append((("bool", True, r[2] if r[0] == "bool" else []), tr3))
+                elif kind == "find_map":
+                    if r[0] != "v" or r[1] not in ("Some", "None"):
+                        raise _Undecided("find_map value")
+                    if r[1] == "Some":
+                        out.append((r, tr3))
+                else:
+                    if r[0] != "v" or r[1] not in _DISCR:
+                        raise _Undecided("try_for_each value")
+                    if r[1] in ("Err", "None", "Break"):
+                        out.append((r, tr3))
+        if kind == "try_for_each":
+            stops = {r[1] for r, _ in out if r[0] == "v"}
+            done = _v("Ok", _UNIT) if "Err" in stops else _v("Some", _UNIT) if "None" in stops else _v("Continue", _UNIT) if "Break" in stops else None
+            if done is None and any(r[0] == "try_done" for r, _ in out):
+                raise _Undecided("try_for_each that never stops early")
+            out = [(done if r[0] == "try_done" else r, tr_) for r, tr_ in out]
+        return out
+
+    def call(self, env, t, tr):
+        a = [self.operand(env, x) for x in t["args"]]
+        m = lambda rx: call_matches(t, rx)
+        if m(self.dec_rx):
+            self.dec_args.append(a)
+            return [(_v("Err", ("atom", "e", [])), tr + (("decode", "Err"),)), (_v("Ok", _v("None")), tr + (("decode", "None"),)),
+                    (_v("Ok", _v("Some", ("decoded", None, []))), tr + (("decode", "Some"),))]
+        if m(r"render::CellWrite::put_char$") and len(a) == 2:
+            return [(("bool", r, ["put_char"]), tr + (("put_char", r, a[1]),)) for r in (True, False)]
+        if m(r"^std::io::Cursor::<T>::new$"):
+            return [(("call", "Cursor::new", a), tr)]
+        if m(r"^std::io::Cursor::<T>::position$"):
+            return [(("call", "position", a), tr)]
+        if m(r"slice::<impl \[T\]>::(len|is_empty)$"):
+            return [(("call", callee_name(t).split("::")[-1], a), tr)]
+        if m(r"^std::iter::from_fn$|iter::sources::from_fn::from_fn$") and len(a) == 1:
+            return [(("from_fn", None, a), tr)]
+        if m(r"^std::iter::Iterator::map$") and len(a) == 2:
+            return [(("map", None, a), tr)]
+        if m(r"^std::iter::Iterator::by_ref$|IntoIterator>?::into_iter$|^std::iter::Iterator::fuse$") and len(a) == 1 and a[0][0] in ("from_fn", "map"):
+            return [(a[0], tr)]
+        for kind in ("find", "find_map", "try_for_each", "all", "any"):
+            if m(r"^std::iter::Iterator::%s$" % kind) and len(a) == 2:
+                return self.consume(kind, a[0], a[1], tr)
+        x = a[0] if a else None
+        shape = x[1] if x is not None and x[0] == "v" else None
+        if m(r"::transpose$") and len(a) == 1 and shape:
+            inner = x[2][0] if x[2] else None
+            if shape == "None":
+                return [(_v("Ok", _v("None")), tr)]
+            if shape == "Some" and inner[0] == "v" and inner[1] in ("Ok", "Err"):
+                return [(_v("Ok", _v("Some", inner[2][0])) if inner[1] == "Ok" else inner, tr)]
+            if shape == "Err":
+                return [(_v("Some", x), tr)]
+            if shape == "Ok" and inner[0] == "v" and inner[1] in ("Some", "None"):
+                return [(_v("Some", _v("Ok", inner[2][0])) if inner[1] == "Some" else inner, tr)]
+            raise _Undecided("transpose")
+        if m(r"^std::(result::Result|option::Option)::<.*>::map$") and len(a) == 2 and shape:
+            if shape in ("Err", "None"):
+                return [(x, tr)]
+            return [(_v(shape, r), tr2) for r, tr2 in self.callfn(a[1], [x[2][0]], tr)]
+        if m(r"^std::option::Option::<T>::map_or_else$") and len(a) == 3 and shape:
+            return self.callfn(a[1], [], tr) if shape == "None" else self.callfn(a[2], [x[2][0]], tr)
+        if m(r"^std::result::Result::<T, E>::map_or_else$") and len(a) == 3 and shape:
+            return self.callfn(a[1], [x[2][0]], tr) if shape == "Err" else self.callfn(a[2], [x[2][0]], tr)
+        if m(r"^std::option::Option::<T>::map_or$") and len(a) == 3 and shape:
+            return [(a[1], tr)] if shape == "None" else self.callfn(a[2], [x[2][0]], tr)
+        if m(r"^std::option::Option::<T>::(is_some|is_none)$|^std::result::Result::<T, E>::(is_ok|is_err)$") and len(a) == 1 and shape:
+            nm = callee_name(t).split("::")[-1]
+            return [(("bool", shape == {"is_some": "Some", "is_none": "None", "is_ok": "Ok", "is_err": "Err"}[nm], []), tr)]
+        if m(r"as std::ops::Try>::branch$") and len(a) == 1 and shape:
+            return [(_v("Continue", x[2][0]) if shape in ("Ok", "Some") else _v("Break", x), tr)]
+        if m(r"FromResidual<.*>>::from_residual$") and len(a) == 1 and shape in ("Err", "None"):
+            return [(x, tr)]
+        if any(_has_lazy(v) for v in a):
+            raise _Undecided("closure or iterator handed to %s" % (callee_name(t) or "<indirect>"))
+        nm = callee_name(t)
+        if nm is None:
+            raise _Undecided("indirect call")
+        if any(v == ("arg", 2, []) for v in a):
+            self.buf_readers.append(nm)
+        return [(("call", nm, a), tr)]
+
+
+def _cond_buf_empty(ev):
+    """does this branch decision imply that the written buffer (arg2) is empty"""
+    _, d, val, vals = ev
+    buf = ("arg", 2, [])
+    ln = ("call", "len", [buf])
+    if d == ln:
+        return val == "0"
+    if vals != ("0",):
+        return False
+    truthy = val != "0"
+    while d[0] == "not":
+        d, truthy = d[2][0], not truthy
+    if d == ("call", "is_empty", [buf]):
+        return truthy
+    if d[0] == "bin":
+        a, c = d[2]
+        zero, one = ("int", 0, []), ("int", 1, [])
+        if (d[1], a, c) in (("Eq", ln, zero), ("Eq", zero, ln), ("Le", ln, zero), ("Lt", ln, one), ("Ge", zero, ln), ("Gt", one, ln)):
+            return truthy
+        if (d[1], a, c) in (("Ne", ln, zero), ("Ne", zero, ln), ("Gt", ln, zero), ("Ge", ln, one), ("Lt", zero, ln), ("Le", one, ln)):
+            return not truthy
+    return False
+
+
+def _chain_fold(prog, path, b, dec_rx, may_fill):
+    """WRITER-FOLD clauses decided on a write() whose decode/forward steps live in closures of an iterator chain.
+    -> None when not understood, else {"cursor-decoder": bool, "return-value": bool, "forward": bool, "returns": [...]}"""
+    roots = {path} | {blk["inl_from"] for blk in b.blocks if blk.get("inl_from")}      # helpers expanded in place bring their closures along
+    fam = [b] + [c for c in prog.bodies if c.closure_root in roots and c.kind == "Closure"]
+    n_cur = sum(1 for c in fam for bb, t in c.calls() if call_matches(t, r"^std::io::Cursor::<T>::new$"))
+    n_dec = sum(1 for c in fam for bb, t in c.calls() if call_matches(t, dec_rx))
+    n_fwd = sum(1 for c in fam for bb, t in c.calls() if call_matches(t, r"render::CellWrite::put_char$"))
+    if not may_fill or len(fam) == 1 or n_dec == 0:
+        return None
+    ch = _Chain(prog, dec_rx)
+    buf, slf = ("arg", 2, []), ("arg", 1, [])
+    try:
+        outs = ch.run_body(b, [slf, buf], ())
+    except (_Undecided, KeyError, IndexError, TypeError):
+        return None
+    cur = ("call", "Cursor::new", [buf])
+    pos = ("cast", "usize", [("call", "position", [cur])])
+    ln = ("call", "len", [buf])
+    ok1 = n_cur == 1 and n_dec == 1 and bool(ch.dec_args) and all(a == [("fld", "decoder", [slf]), cur] for a in ch.dec_args)
+    rets, ok2, n_pos = [], not ch.buf_readers, 0
+    for v, tr in outs:
+        if v[0] != "v" or v[1] not in ("Ok", "Err"):
+            return None
+        if v[1] == "Err":
+            continue
+        x = v[2][0]
+        if x in (ln, ("int", 0, [])) and any(e[0] == "cond" and _cond_buf_empty(e) for e in tr):
+            rets.append("0 / buf.len() on an empty buffer")      # what the general path returns there (see the loop form above)
+        elif x == pos:
+            n_pos += 1
+            rets.append("cursor.position()")
+        elif x == ln:
+            puts = [e for e in tr if e[0] == "put_char"]
+            full = bool(puts) and puts[-1][1] is False
+            rets.append("buf.len() after put_char -> %s" % (puts[-1][1] if puts else None))
+            ok2 = ok2 and full
+        else:
+            rets.append(repr(x)[:80])
+            ok2 = False
+    ok2 = ok2 and n_pos > 0
+    ok4 = n_fwd > 0 and not ch.unforwarded and any(e[0] == "put_char" for v, tr in outs for e in tr)
+    return {"cursor-decoder": ok1, "return-value": ok2, "forward": ok4, "returns": sorted(set(rets))}
+
+
 def run(ctx):
     prog = ctx.prog
     ctx.explanation = CLAIM["text"]
@@ -486,6 +845,18 @@ def run(ctx):
         decs = [(bb, t) for bb, t in b.calls() if call_matches(t, dec_rx)]
         ok1 = len(curs) == 1 and expr(b, curs[0][1]["args"][0]) == "arg2" and len(decs) == 1 \
             and expr(b, decs[0][1]["args"][0]) == "arg1.decoder" and expr(b, decs[0][1]["args"][1]) == "Cursor::new(arg2)"
+        if not ok1:
+            # the decode / forward steps may live in the closures of a lazy iterator chain: decide the same clauses by abstract execution
+            cf = _chain_fold(prog, path, b, dec_rx, may_fill)
+            if cf is not None and cf["cursor-decoder"]:
+                ctx.instance("WRITER-FOLD", {"fn": path, "hyp": "single Cursor::new(buf) handed to self.decoder.decode (iterator chain)", "ok": True})
+                ctx.instance("WRITER-FOLD", {"fn": path, "hyp": "returns cursor.position(); buf.len() only on the sink-full edge", "returns": cf["returns"], "ok": cf["return-value"]})
+                if not cf["return-value"]:
+                    ctx.violation("WRITER-FOLD", path, "return-value", "write() reports a byte count other than the bytes handed to the decoder (returns %s): a caller's retry would duplicate or drop bytes at chunk borders" % cf["returns"], sites=[b.loc])
+                ctx.instance("WRITER-FOLD", {"fn": path, "hyp": "decoded items are forwarded to the cell sink", "sinks": ["put_char"], "ok": cf["forward"]})
+                if not cf["forward"]:
+                    ctx.violation("WRITER-FOLD", path, "forward", "decoded items are not forwarded to the CellWrite sink", sites=[b.loc])
+                continue
         ctx.instance("WRITER-FOLD", {"fn": path, "hyp": "single Cursor::new(buf) handed to self.decoder.decode", "ok": ok1})
         if not ok1:
             ctx.violation("WRITER-FOLD", path, "cursor-decoder", "write() must feed `buf` through exactly one Cursor to the decoder stored in self (state must survive between writes)", sites=[b.loc])
